@@ -171,7 +171,7 @@ package client
 // a QoS 2 PUBLISH is not dispatched on receipt (it is dispatched by Pubrel)
 //@   ensures [C16,C27] qos01_dispatched_on_receipt: istype(pktx, *pkts1.Publish) && pktx.(*pkts1.Publish).QOS <= 1 && result == nil ==> c.messageHandlers.dispatchN == old(c.messageHandlers.dispatchN) + 1
 //@   ensures [C16,C27] qos2_not_dispatched_on_receipt: istype(pktx, *pkts1.Publish) && pktx.(*pkts1.Publish).QOS == 2 ==> c.messageHandlers.dispatchN == old(c.messageHandlers.dispatchN)
-//@   ensures [C17] pubrel_always_confirmed: istype(pktx, *pkts1.Pubrel) ==> c.tryN == w0 + 1 && istype(c.try[w0], *pkts1.Pubcomp) &&
+//@   ensures [C17,C16] pubrel_always_confirmed: istype(pktx, *pkts1.Pubrel) ==> c.tryN == w0 + 1 && istype(c.try[w0], *pkts1.Pubcomp) &&
 //@      c.try[w0].(*pkts1.Pubcomp).messageID == pktx.(*pkts1.Pubrel).messageID
 
 // ---- API calls (C17, C25, C31, C32) ----
